@@ -12,6 +12,7 @@ import (
 	"context"
 	"errors"
 	"fmt"
+	"io"
 	mrand "math/rand/v2"
 	"os"
 	"sort"
@@ -19,13 +20,21 @@ import (
 	"testing"
 	"time"
 
+	"github.com/cometbft/cometbft/crypto/ed25519"
 	"github.com/cometbft/cometbft/crypto/tmhash"
+	"github.com/cometbft/cometbft/proto/tendermint/p2p"
+	tmproto "github.com/cometbft/cometbft/proto/tendermint/types"
 	cmtversion "github.com/cometbft/cometbft/proto/tendermint/version"
+	coregrpc "github.com/cometbft/cometbft/rpc/grpc"
 	"github.com/cometbft/cometbft/types"
+	"github.com/cometbft/cometbft/version"
+	"github.com/gogo/protobuf/proto"
 	pubsub "github.com/libp2p/go-libp2p-pubsub"
+	"google.golang.org/grpc"
 
 	"github.com/celestiaorg/celestia-app/v9/pkg/appconsts"
 	"github.com/celestiaorg/celestia-app/v9/pkg/da"
+	libhead "github.com/celestiaorg/go-header"
 	libshare "github.com/celestiaorg/go-square/v4/share"
 	"github.com/celestiaorg/rsmt2d"
 
@@ -58,8 +67,8 @@ func TestVerifC15(t *testing.T) {
 			}
 			s.Finish()
 		},
-		Real: []string{"core.Listener (Start, Stop, listen, handleNewBlockEvent, handleNewSignedBlock)", "core.storeEDS", "core.MultiSource", "da.ConstructEDS", "header.MakeExtendedHeader", "store.Store on a scratch directory", "full.ShareAvailability.SharesAvailable", "availability.IsWithinWindow"},
-		Stub: []string{"consensus endpoints (blockSource)", "header broadcaster and shrex-sub hash broadcaster (recorders)", "shwap.Getter of the availability path", "consensus itself: generated unsigned blocks whose data hash is the DAH of their constructed square"},
+		Real: []string{"core.Listener (Start, Stop, listen, handleNewBlockEvent, handleNewSignedBlock)", "core.storeEDS", "core.MultiSource", "core.BlockFetcher (subscription loop, block part assembly, status)", "core.Exchange (GetByHeight, Get, getRangeByHeight)", "da.ConstructEDS", "header.MakeExtendedHeader", "store.Store on a scratch directory", "full.ShareAvailability.SharesAvailable", "availability.IsWithinWindow"},
+		Stub: []string{"consensus endpoints (the gRPC BlockAPIClient below core.BlockFetcher: block part streams, commit, validator set, status, new-height subscription)", "header broadcaster and shrex-sub hash broadcaster (recorders)", "shwap.Getter of the availability path", "consensus itself: generated unsigned blocks whose data hash is the DAH of their constructed square"},
 	})
 }
 
@@ -69,15 +78,25 @@ type vsBlk struct {
 	sb     *SignedBlock
 	eds    *rsmt2d.ExtendedDataSquare
 	dah    da.DataAvailabilityHeader
+	parts  []*tmproto.Part
 	inside bool // timestamp inside the availability window (incl. slightly ahead of the clock)
 }
 
-func vsMakeBlock(rng *mrand.Rand, h int64, t time.Time) *vsBlk {
+func vsValidators() *types.ValidatorSet {
+	pk := ed25519.GenPrivKeyFromSecret([]byte("verif-validator"))
+	return types.NewValidatorSet([]*types.Validator{types.NewValidator(pk.PubKey(), 10)})
+}
+
+func vsMakeBlock(rng *mrand.Rand, h int64, t time.Time, vals *types.ValidatorSet) *vsBlk {
 	var txs types.Txs
-	switch rng.IntN(4) {
-	case 0: // empty block
-	case 1:
+	switch rng.IntN(10) {
+	case 0, 1: // empty block
+	case 2, 3:
 		txs = append(txs, vsBytes(rng, 20+rng.IntN(200)))
+	case 4: // a block larger than one block part (64 KiB)
+		for i, n := 0, 8+rng.IntN(4); i < n; i++ {
+			txs = append(txs, vsBytes(rng, 8000+rng.IntN(2000)))
+		}
 	default:
 		for i, n := 0, 1+rng.IntN(6); i < n; i++ {
 			txs = append(txs, vsBytes(rng, 50+rng.IntN(1500)))
@@ -91,17 +110,30 @@ func vsMakeBlock(rng *mrand.Rand, h int64, t time.Time) *vsBlk {
 	if err != nil {
 		panic(err)
 	}
+	lastCommit := &types.Commit{}
 	hd := &types.Header{
-		Version: cmtversion.Consensus{Block: 11, App: appconsts.Version},
+		Version: cmtversion.Consensus{Block: version.BlockProtocol, App: appconsts.Version},
 		ChainID: vsChainID, Height: h, Time: t, DataHash: dah.Hash(),
+		LastCommitHash: lastCommit.Hash(), EvidenceHash: (&types.EvidenceData{}).Hash(),
+		ValidatorsHash: vals.Hash(), NextValidatorsHash: vals.Hash(), ConsensusHash: tmhash.Sum([]byte("consensus")),
+		ProposerAddress: vals.Validators[0].Address,
 	}
-	var hb [8]byte
-	for i := range hb {
-		hb[i] = byte(h >> (8 * i))
+	commit := &types.Commit{Height: h, BlockID: types.BlockID{Hash: hd.Hash(), PartSetHeader: types.PartSetHeader{Total: 1, Hash: tmhash.Sum([]byte("parts"))}},
+		Signatures: []types.CommitSig{{BlockIDFlag: types.BlockIDFlagCommit, ValidatorAddress: vals.Validators[0].Address, Timestamp: t, Signature: make([]byte, 64)}}}
+	// the block as the consensus node streams it: proto bytes cut into parts
+	pb := &tmproto.Block{Header: *hd.ToProto(), Data: tmproto.Data{Txs: txs.ToSliceOfBytes(), SquareSize: uint64(len(dah.RowRoots) / 2), Hash: dah.Hash()}, LastCommit: lastCommit.ToProto()}
+	bz, err := proto.Marshal(pb)
+	if err != nil {
+		panic(err)
+	}
+	var parts []*tmproto.Part
+	for i := 0; i*int(types.BlockPartSizeBytes) < len(bz); i++ {
+		end := min((i+1)*int(types.BlockPartSizeBytes), len(bz))
+		parts = append(parts, &tmproto.Part{Index: uint32(i), Bytes: bz[i*int(types.BlockPartSizeBytes) : end]})
 	}
 	return &vsBlk{
-		sb:  &SignedBlock{Header: hd, Commit: &types.Commit{Height: h, BlockID: types.BlockID{Hash: tmhash.Sum(hb[:])}}, Data: &types.Data{Txs: txs}, ValidatorSet: &types.ValidatorSet{}},
-		eds: sq, dah: dah,
+		sb:  &SignedBlock{Header: hd, Commit: commit, Data: &types.Data{Txs: txs}, ValidatorSet: vals},
+		eds: sq, dah: dah, parts: parts,
 	}
 }
 
@@ -113,41 +145,49 @@ func vsBytes(rng *mrand.Rand, n int) []byte {
 	return b
 }
 
-// ---- consensus endpoint stub
+// ---- consensus endpoint stub: the gRPC client seam below the real BlockFetcher
 
 type vsFetchCall struct {
 	src    string
 	height int64
-	kind   string // "fetch" or "syncing"
+	kind   string // "fetch", "fetch-by-hash", "info" or "syncing"
 	resp   chan int
 }
 
-type vsSource struct {
+type vsEndpoint struct {
 	w       *vsBridge
 	addr    string
-	ch      chan BlockEvent
+	heights chan int64 // announcements; -1 breaks the current subscription stream
 	syncing bool
+	network string
+	statusN int
+	coregrpc.BlockAPIClient
 }
 
 type vsBridge struct {
 	s               *verifsim.Sim
 	mu              sync.Mutex
 	blocks          map[int64]*vsBlk
+	byHash          map[string]*vsBlk
 	pending         []*vsFetchCall
-	fetchedOK       map[int64]bool // a fetch of the height succeeded at least once
+	fetchedOK       map[int64]bool // every part of the height was delivered to a fetch at least once
 	published       []uint64
 	pubDAH          map[uint64][]byte
 	hashes          []uint64
 	st              *store.Store
 	storedAtPublish map[uint64]bool
+	dropped         map[string]bool // endpoints the chain-id verification must drop
+	usedDropped     string
+	exTouched       map[int64]bool // heights an Exchange request covered (they may be stored without the listener publishing them)
+	vals            *types.ValidatorSet
 }
 
-func (v *vsSource) SubscribeNewBlockEvent(context.Context) (chan BlockEvent, error) { return v.ch, nil }
-func (v *vsSource) ChainID(context.Context) (string, error)                         { return vsChainID, nil }
-
-func (v *vsSource) wait(ctx context.Context, kind string, h int64) (int, error) {
-	c := &vsFetchCall{src: v.addr, height: h, kind: kind, resp: make(chan int, 1)}
+func (v *vsEndpoint) wait(ctx context.Context, kind string, h int64) (int, error) {
 	v.w.mu.Lock()
+	if v.w.dropped[v.addr] && v.w.usedDropped == "" {
+		v.w.usedDropped = fmt.Sprintf("%s of height %d from %s", kind, h, v.addr)
+	}
+	c := &vsFetchCall{src: v.addr, height: h, kind: kind, resp: make(chan int, 1)}
 	v.w.pending = append(v.w.pending, c)
 	v.w.mu.Unlock()
 	select {
@@ -166,36 +206,175 @@ func (v *vsSource) wait(ctx context.Context, kind string, h int64) (int, error) 
 	}
 }
 
-func (v *vsSource) GetSignedBlock(ctx context.Context, h int64) (*SignedBlock, error) {
-	r, err := v.wait(ctx, "fetch", h)
+// vsStream serves a prepared list of responses; failAt >= 0 breaks the stream before that response.
+type vsStream struct {
+	grpc.ClientStream
+	parts  []*tmproto.Part
+	b      *vsBlk
+	w      *vsBridge
+	i      int
+	failAt int
+}
+
+func (st *vsStream) next() (*tmproto.Part, bool, error) {
+	if st.i == st.failAt {
+		return nil, false, errors.New("verif: block stream broke")
+	}
+	if st.i >= len(st.parts) {
+		return nil, false, io.EOF
+	}
+	p := st.parts[st.i]
+	st.i++
+	last := st.i == len(st.parts)
+	if last {
+		st.w.mu.Lock()
+		st.w.fetchedOK[st.b.sb.Header.Height] = true
+		st.w.mu.Unlock()
+	}
+	return p, last, nil
+}
+
+type vsByHeightStream struct{ *vsStream }
+
+func (st vsByHeightStream) Recv() (*coregrpc.BlockByHeightResponse, error) {
+	first := st.i == 0
+	p, last, err := st.next()
 	if err != nil {
 		return nil, err
 	}
-	if r != 0 {
-		return nil, errors.New("verif: endpoint failed to serve the block")
+	r := &coregrpc.BlockByHeightResponse{BlockPart: p, IsLast: last}
+	if first {
+		r.Commit = st.b.sb.Commit.ToProto()
+		vp, err := st.b.sb.ValidatorSet.ToProto()
+		if err != nil {
+			panic(err)
+		}
+		r.ValidatorSet = vp
 	}
-	v.w.mu.Lock()
-	defer v.w.mu.Unlock()
-	b := v.w.blocks[h]
-	if b == nil {
-		return nil, errors.New("verif: unknown height")
-	}
-	v.w.fetchedOK[h] = true
-	return b.sb, nil
+	return r, nil
 }
 
-func (v *vsSource) IsSyncing(ctx context.Context) (bool, error) {
-	r, err := v.wait(ctx, "syncing", 0)
+type vsByHashStream struct{ *vsStream }
+
+func (st vsByHashStream) Recv() (*coregrpc.BlockByHashResponse, error) {
+	p, last, err := st.next()
 	if err != nil {
-		return false, err
+		return nil, err
 	}
-	switch r {
-	case 1:
-		return false, errors.New("verif: status query failed")
-	case 2:
-		return true, nil
+	return &coregrpc.BlockByHashResponse{BlockPart: p, IsLast: last}, nil
+}
+
+func (v *vsEndpoint) stream(ctx context.Context, kind string, b *vsBlk, h int64) (*vsStream, error) {
+	r, err := v.wait(ctx, kind, h)
+	if err != nil {
+		return nil, err
 	}
-	return v.syncing, nil
+	if r == 1 || b == nil {
+		return nil, errors.New("verif: endpoint failed to serve the block")
+	}
+	st := &vsStream{parts: b.parts, b: b, w: v.w, failAt: -1}
+	if r == 3 {
+		st.failAt = len(b.parts) - 1 // breaks before the last part
+	}
+	return st, nil
+}
+
+func (v *vsEndpoint) BlockByHeight(ctx context.Context, in *coregrpc.BlockByHeightRequest, _ ...grpc.CallOption) (coregrpc.BlockAPI_BlockByHeightClient, error) {
+	v.w.mu.Lock()
+	b := v.w.blocks[in.Height]
+	v.w.mu.Unlock()
+	st, err := v.stream(ctx, "fetch", b, in.Height)
+	if err != nil {
+		return nil, err
+	}
+	return vsByHeightStream{st}, nil
+}
+
+func (v *vsEndpoint) BlockByHash(ctx context.Context, in *coregrpc.BlockByHashRequest, _ ...grpc.CallOption) (coregrpc.BlockAPI_BlockByHashClient, error) {
+	v.w.mu.Lock()
+	b := v.w.byHash[string(in.Hash)]
+	v.w.mu.Unlock()
+	var h int64
+	if b != nil {
+		h = b.sb.Header.Height
+	}
+	st, err := v.stream(ctx, "fetch-by-hash", b, h)
+	if err != nil {
+		return nil, err
+	}
+	return vsByHashStream{st}, nil
+}
+
+func (v *vsEndpoint) Commit(ctx context.Context, in *coregrpc.CommitRequest, _ ...grpc.CallOption) (*coregrpc.CommitResponse, error) {
+	r, err := v.wait(ctx, "info", in.Height)
+	if err != nil {
+		return nil, err
+	}
+	v.w.mu.Lock()
+	b := v.w.blocks[in.Height]
+	v.w.mu.Unlock()
+	if r != 0 || b == nil {
+		return nil, errors.New("verif: commit query failed")
+	}
+	return &coregrpc.CommitResponse{Commit: b.sb.Commit.ToProto()}, nil
+}
+
+func (v *vsEndpoint) ValidatorSet(ctx context.Context, in *coregrpc.ValidatorSetRequest, _ ...grpc.CallOption) (*coregrpc.ValidatorSetResponse, error) {
+	vp, err := v.w.vals.ToProto()
+	if err != nil {
+		panic(err)
+	}
+	return &coregrpc.ValidatorSetResponse{ValidatorSet: vp, Height: in.Height}, nil
+}
+
+type vsHeightStream struct {
+	grpc.ClientStream
+	v   *vsEndpoint
+	ctx context.Context
+}
+
+func (st vsHeightStream) Recv() (*coregrpc.SubscribeNewHeightsResponse, error) {
+	select {
+	case h := <-st.v.heights:
+		if h < 0 {
+			return nil, errors.New("verif: subscription stream broke")
+		}
+		return &coregrpc.SubscribeNewHeightsResponse{Height: h}, nil
+	case <-st.ctx.Done():
+		return nil, st.ctx.Err()
+	}
+}
+
+func (st vsHeightStream) CloseSend() error { return nil }
+
+func (v *vsEndpoint) SubscribeNewHeights(ctx context.Context, _ *coregrpc.SubscribeNewHeightsRequest, _ ...grpc.CallOption) (coregrpc.BlockAPI_SubscribeNewHeightsClient, error) {
+	return vsHeightStream{v: v, ctx: ctx}, nil
+}
+
+// Status: the first query of an endpoint (chain-id verification at start) is answered at once, later
+// ones (sync state) are scheduler decisions.
+func (v *vsEndpoint) Status(ctx context.Context, _ *coregrpc.StatusRequest, _ ...grpc.CallOption) (*coregrpc.StatusResponse, error) {
+	v.w.mu.Lock()
+	v.statusN++
+	first := v.statusN == 1
+	v.w.mu.Unlock()
+	syncing := v.syncing
+	if !first {
+		r, err := v.wait(ctx, "syncing", 0)
+		if err != nil {
+			return nil, err
+		}
+		switch r {
+		case 1:
+			return nil, errors.New("verif: status query failed")
+		case 2:
+			syncing = true
+		}
+	}
+	return &coregrpc.StatusResponse{
+		NodeInfo: &p2p.DefaultNodeInfo{Network: v.network},
+		SyncInfo: &coregrpc.SyncInfo{CatchingUp: syncing},
+	}, nil
 }
 
 type vsHeaderBcast struct{ w *vsBridge }
@@ -215,11 +394,14 @@ func (w *vsBridge) livePending() []*vsFetchCall {
 	w.mu.Lock()
 	defer w.mu.Unlock()
 	out := append([]*vsFetchCall(nil), w.pending...)
-	sort.Slice(out, func(i, j int) bool {
+	sort.SliceStable(out, func(i, j int) bool {
 		if out[i].src != out[j].src {
 			return out[i].src < out[j].src
 		}
-		return out[i].kind+fmt.Sprint(out[i].height) < out[j].kind+fmt.Sprint(out[j].height)
+		if out[i].kind != out[j].kind {
+			return out[i].kind < out[j].kind
+		}
+		return out[i].height < out[j].height
 	})
 	return out
 }
@@ -242,9 +424,11 @@ func vsListenerWorld(s *verifsim.Sim, dir string) {
 	archival := s.Chance(1, 2, "archival")
 	nsrc := s.Range(1, 3, "nsources")
 	fsFaults := s.Chance(1, 4, "fs_faults")
+	withExchange := s.Chance(1, 2, "with_exchange")
 	window := time.Hour
-	s.Cfg["path"], s.Cfg["archival"], s.Cfg["nsources"], s.Cfg["fs_faults"] = "listener", archival, nsrc, fsFaults
-	w := &vsBridge{s: s, blocks: map[int64]*vsBlk{}, fetchedOK: map[int64]bool{}, pubDAH: map[uint64][]byte{}, storedAtPublish: map[uint64]bool{}}
+	s.Cfg["path"], s.Cfg["archival"], s.Cfg["nsources"], s.Cfg["fs_faults"], s.Cfg["exchange"] = "listener", archival, nsrc, fsFaults, withExchange
+	w := &vsBridge{s: s, blocks: map[int64]*vsBlk{}, byHash: map[string]*vsBlk{}, fetchedOK: map[int64]bool{}, pubDAH: map[uint64][]byte{},
+		storedAtPublish: map[uint64]bool{}, dropped: map[string]bool{}, exTouched: map[int64]bool{}, vals: vsValidators()}
 	ctl := &verifsim.FSControl{}
 	verifsim.InstallFS(ctl)
 	st, err := store.NewStore(&store.Parameters{RecentBlocksCacheSize: s.Range(0, 2, "recent_cache")}, dir)
@@ -277,18 +461,29 @@ func vsListenerWorld(s *verifsim.Sim, dir string) {
 		case 2:
 			t = now.Add(time.Duration(3+rng.IntN(20)) * time.Second) // the proposer's clock is slightly ahead
 		}
-		b := vsMakeBlock(rng, h, t)
+		b := vsMakeBlock(rng, h, t, w.vals)
 		b.inside = inside
 		w.blocks[h] = b
+		w.byHash[string(b.sb.Header.Hash())] = b
 	}
 	var tagged []taggedSource
-	var srcs []*vsSource
+	var srcs []*vsEndpoint
+	var fetchers []*BlockFetcher
 	for i := 0; i < nsrc; i++ {
-		v := &vsSource{w: w, addr: fmt.Sprintf("endpoint%d", i), ch: make(chan BlockEvent, 64), syncing: i > 0 && s.Chance(1, 3, "endpoint_syncing")}
+		v := &vsEndpoint{w: w, addr: fmt.Sprintf("endpoint%d", i), heights: make(chan int64, 256), network: vsChainID}
+		if i > 0 {
+			v.syncing = s.Chance(1, 3, "endpoint_syncing")
+			if s.Chance(1, 6, "endpoint_on_other_network") {
+				s.Fault("endpoint-on-other-network")
+				v.network = "some-other-chain"
+				w.dropped[v.addr] = true
+			}
+		}
 		srcs = append(srcs, v)
-		tagged = append(tagged, taggedSource{fetcher: v, addr: v.addr})
+		bf := &BlockFetcher{client: v, addr: v.addr}
+		fetchers = append(fetchers, bf)
+		tagged = append(tagged, taggedSource{fetcher: bf, addr: v.addr})
 	}
-	ms := newMultiSource(tagged...)
 	hashB := func(_ context.Context, n shrexsub.Notification) error {
 		w.mu.Lock()
 		w.hashes = append(w.hashes, n.Height)
@@ -299,11 +494,22 @@ func vsListenerWorld(s *verifsim.Sim, dir string) {
 	if archival {
 		opts = append(opts, WithArchivalMode())
 	}
-	cl, err := NewListener(vsHeaderBcast{w}, ms, hashB, header.MakeExtendedHeader, st, 6*time.Second, opts...)
+	var fetcher Fetcher = newMultiSource(tagged...)
+	if nsrc == 1 && s.Chance(1, 2, "bare_fetcher") {
+		fetcher = fetchers[0]
+	}
+	cl, err := NewListener(vsHeaderBcast{w}, fetcher, hashB, header.MakeExtendedHeader, st, 6*time.Second, opts...)
 	if err != nil {
 		panic(err)
 	}
-	started := s.Go("listener-start", func() {
+	var ex *Exchange
+	if withExchange {
+		ex, err = NewExchange(fetchers[0], st, header.MakeExtendedHeader, opts...)
+		if err != nil {
+			panic(err)
+		}
+	}
+	s.Go("listener-start", func() {
 		defer func() {
 			if r := recover(); r != nil {
 				s.Violate("c15-listener-panics", "Start", "Listener.Start panicked: %v", r)
@@ -313,10 +519,61 @@ func vsListenerWorld(s *verifsim.Sim, dir string) {
 			panic(err)
 		}
 	})
-	_ = started
-	announced := map[int64]int{}
 	nsteps := s.Range(5, 60, "nsteps")
 	next := int64(1)
+	exBusy := 0
+	exchangeCall := func(kind int, h int64, amount uint64) {
+		exBusy++
+		b := w.blocks[h]
+		for i := int64(0); i < int64(amount); i++ {
+			w.exTouched[h+i] = true
+		}
+		s.Go(fmt.Sprintf("exchange-%d-h%d", kind, h), func() {
+			defer func() { exBusy-- }()
+			cctx, cancel := context.WithTimeout(ctx, 15*time.Second)
+			defer cancel()
+			var got []*header.ExtendedHeader
+			var err error
+			what := ""
+			switch kind {
+			case 0:
+				what = fmt.Sprintf("Exchange.GetByHeight(%d)", h)
+				var eh *header.ExtendedHeader
+				eh, err = ex.GetByHeight(cctx, uint64(h))
+				if err == nil {
+					got = append(got, eh)
+				}
+			case 1:
+				what = fmt.Sprintf("Exchange.Get(hash of %d)", h)
+				var eh *header.ExtendedHeader
+				eh, err = ex.Get(cctx, libhead.Hash(b.sb.Header.Hash()))
+				if err == nil {
+					got = append(got, eh)
+				}
+			case 2:
+				what = fmt.Sprintf("Exchange range [%d,%d)", h, h+int64(amount))
+				got, err = ex.getRangeByHeight(cctx, uint64(h), amount)
+			}
+			if err != nil {
+				if len(got) != 0 {
+					s.Violate("c15-failed-ingest-reported-as-success", "Exchange", "%s returned both headers and an error (%v)", what, err)
+				}
+				return
+			}
+			for i, eh := range got {
+				want := w.blocks[h+int64(i)]
+				if eh == nil || want == nil || int64(eh.Height()) != h+int64(i) || !bytes.Equal(eh.DAH.Hash(), want.dah.Hash()) {
+					s.Violate("c15-published-header-differs", "Exchange", "%s: header %d of the answer is not the header of height %d with that block's data availability header", what, i, h+int64(i))
+					return
+				}
+				has, herr := st.HasByHeight(ctx, eh.Height())
+				if herr == nil && !has && (want.inside || archival) {
+					s.Violate("c15-obtained-block-not-stored", "Exchange", "%s returned the header of height %d (inside window=%v, archival=%v) but the square is not in the store", what, eh.Height(), want.inside, archival)
+					return
+				}
+			}
+		})
+	}
 	for step := 0; step < nsteps && !s.Violated(); step++ {
 		ps := s.Settle()
 		alts := s.TaskAlts(ps, 10)
@@ -328,40 +585,55 @@ func vsListenerWorld(s *verifsim.Sim, dir string) {
 					if v == srcs[0] || s.Chance(1, 2, "also_advances") {
 						next++
 					}
-					announced[h]++
-					v.ch <- BlockEvent{Height: h}
+					v.heights <- h
 				}})
 			}
 			if next > 1 {
 				alts = append(alts, verifsim.Alt{Label: v.addr + " re-announces", Weight: 3, Do: func() {
 					s.Fault("duplicate-or-old-announcement")
-					h := 1 + int64(s.Choose(int(next-1), "old_height"))
-					announced[h]++
-					v.ch <- BlockEvent{Height: h}
+					v.heights <- 1 + int64(s.Choose(int(next-1), "old_height"))
 				}})
 			}
 			if next+1 <= int64(nblocks) {
 				alts = append(alts, verifsim.Alt{Label: v.addr + " skips ahead", Weight: 1, Do: func() {
 					s.Fault("gap-announcement")
-					h := next + 1
-					announced[h]++
-					v.ch <- BlockEvent{Height: h}
+					v.heights <- next + 1
 				}})
 			}
+			alts = append(alts, verifsim.Alt{Label: v.addr + " subscription breaks", Weight: 1, Do: func() {
+				s.Fault("subscription-breaks")
+				v.heights <- -1
+			}})
 		}
 		for _, c := range w.livePending() {
 			c := c
 			lbl := fmt.Sprintf("%s %s h%d", c.src, c.kind, c.height)
 			alts = append(alts, verifsim.Alt{Label: lbl + " ok", Weight: 10, Do: func() { w.release(c, 0) }})
 			alts = append(alts, verifsim.Alt{Label: lbl + " fails", Weight: 2, Do: func() { s.Fault(c.kind + "-fails"); w.release(c, 1) }})
-			if c.kind == "syncing" {
+			switch c.kind {
+			case "syncing":
 				alts = append(alts, verifsim.Alt{Label: lbl + " says syncing", Weight: 1, Do: func() { s.Fault("endpoint-syncing"); w.release(c, 2) }})
+			case "fetch", "fetch-by-hash":
+				alts = append(alts, verifsim.Alt{Label: lbl + " breaks mid-stream", Weight: 1, Do: func() { s.Fault("fetch-stream-breaks"); w.release(c, 3) }})
 			}
+		}
+		if ex != nil && exBusy < 2 {
+			alts = append(alts, verifsim.Alt{Label: "exchange request", Weight: 5, Do: func() {
+				h := 1 + int64(s.Choose(nblocks, "exchange_height"))
+				kind := s.ChooseW([]int{3, 1, 2}, "exchange_kind")
+				amount := uint64(1)
+				if kind == 2 {
+					amount = uint64(1 + s.Choose(int(int64(nblocks)-h+1), "exchange_amount"))
+				}
+				exchangeCall(kind, h, amount)
+			}})
 		}
 		if fsFaults && failNext == 0 {
 			alts = append(alts, verifsim.Alt{Label: "disk fills up", Weight: 2, Do: func() { failNext = 1 + s.Choose(3, "failing_calls") }})
 		}
-		alts = append(alts, s.StallAlt([]time.Duration{time.Millisecond, time.Second, 11 * time.Second}[s.ChooseW([]int{3, 2, 1}, "stall_len")], 2))
+		alts = append(alts, verifsim.Alt{Label: "time passes", Weight: 2, Do: func() {
+			s.Stall([]time.Duration{time.Millisecond, time.Second, 11 * time.Second}[s.ChooseW([]int{3, 2, 1}, "stall_len")])
+		}})
 		s.Pick("step", alts)
 	}
 	if s.Violated() {
@@ -370,7 +642,7 @@ func vsListenerWorld(s *verifsim.Sim, dir string) {
 	// end phase: everything pending succeeds, then the listener must still be responsive
 	failNext = 0
 	ctl.Fail = nil
-	for i := 0; i < 200; i++ {
+	for i := 0; i < 400; i++ {
 		s.Drain(200)
 		p := w.livePending()
 		if len(p) == 0 {
@@ -379,10 +651,20 @@ func vsListenerWorld(s *verifsim.Sim, dir string) {
 		w.release(p[0], 0)
 	}
 	s.Drain(200)
-	// a final honest announcement of every block by the first endpoint: each in-window block must end up stored
+	if s.Violated() {
+		return
+	}
+	// nothing may be in the store that no fetch ever delivered completely
 	for h := int64(1); h <= int64(nblocks); h++ {
-		srcs[0].ch <- BlockEvent{Height: h}
-		announced[h]++
+		if has, _ := st.HasByHeight(ctx, uint64(h)); has && !w.fetchedOK[h] {
+			s.Violate("c15-failed-ingest-leaves-data", "store", "height %d is in the store although no fetch of it ever completed", h)
+			return
+		}
+	}
+	vsJudgeStore(s, w, st, archival, int64(nblocks), false)
+	// a final honest announcement of every block by the first endpoint: each in-window block must end up stored
+	for h := int64(1); h <= int64(nblocks) && !s.Violated(); h++ {
+		srcs[0].heights <- h
 		for i := 0; i < 50; i++ {
 			s.Settle()
 			p := w.livePending()
@@ -394,6 +676,12 @@ func vsListenerWorld(s *verifsim.Sim, dir string) {
 	}
 	s.Settle()
 	vsJudgeStore(s, w, st, archival, int64(nblocks), true)
+	w.mu.Lock()
+	used := w.usedDropped
+	w.mu.Unlock()
+	if used != "" && !s.Violated() {
+		s.Violate("c15-dropped-endpoint-used", "MultiSource", "an endpoint that reported another network at start was used afterwards: %s", used)
+	}
 	stopCtx, cancel := context.WithTimeout(ctx, time.Minute)
 	defer cancel()
 	stopped := s.Go("stop", func() { _ = cl.Stop(stopCtx) })
@@ -401,7 +689,7 @@ func vsListenerWorld(s *verifsim.Sim, dir string) {
 	if !stopped.Done() {
 		s.Stall(2 * time.Minute)
 		s.Drain(200)
-		if !stopped.Done() {
+		if !stopped.Done() && !s.Violated() {
 			s.Violate("c15-listener-unresponsive", "Stop", "Listener.Stop does not return")
 		}
 	}
@@ -487,7 +775,7 @@ func vsJudgeStore(s *verifsim.Sim, w *vsBridge, st *store.Store, archival bool, 
 	if final {
 		for h := int64(1); h <= nblocks; h++ {
 			b := w.blocks[h]
-			if (b.inside || archival) && count[uint64(h)] == 0 {
+			if (b.inside || archival) && count[uint64(h)] == 0 && !w.exTouched[h] {
 				s.Violate("c15-stored-block-never-published", "Broadcast", "height %d was ingested from consensus and stored but its header was never published", h)
 				return
 			}
@@ -559,7 +847,7 @@ func vsAvailabilityWorld(s *verifsim.Sim, dir string) {
 				t = time.Now().Add(-30 * 24 * time.Hour)
 				inside = false
 			}
-			b = vsMakeBlock(rng, h, t)
+			b = vsMakeBlock(rng, h, t, vsValidators())
 			b.inside = inside
 		}
 		cur = b
